@@ -121,6 +121,11 @@ def dec(j):
             return float(j['$f'])
         if '$big' in j:
             return big(j['$big'])
+        if '$deep' in j:
+            v = [1]
+            for _ in range(j['$deep']):      # a list nested deeper than the recursion limit
+                v = [v]
+            return v
         if '$o' in j:
             return SPECIAL[j['$o']]()
         if '$r' in j:
